@@ -198,9 +198,22 @@ func (i *interpreter) initPackage(pkg *ssa.Package) {
 			}()
 			callSSA(i, nil, token.NoPos, init, nil, nil)
 		}()
+		// globals whose (reflection-built) value is never inspected because every operation on them is an intrinsic
+		for _, m := range pkg.Members {
+			if g, ok := m.(*ssa.Global); ok && zeroedGlobals[g.Pkg.Pkg.Path()+"."+g.Name()] {
+				if _, isPoison := (*i.globals[g]).(poison); isPoison {
+					*i.globals[g] = zero(mustDeref(g.Type()))
+				}
+			}
+		}
 		i.path.initSteps += i.path.steps - saveSteps
 		i.path.steps = saveSteps // initialisation is not charged to the path budget
 	}
+}
+
+// globals built with reflection at init time whose only uses are intrinsics (equality.Semantic.DeepEqual ...)
+var zeroedGlobals = map[string]bool{
+	"k8s.io/apimachinery/pkg/api/equality.Semantic": true,
 }
 
 // packages whose initialisers are never needed and are expensive or impossible to interpret
